@@ -382,7 +382,14 @@ def render(unit, rng, layout="std", comments=0.0, nonascii=False):
     unit.toks = r.toks
     unit.text = r.text
     unit.lines = r.lines
-    return r.text
+    # Windows line ends in some units: lines, columns and every fact stay what they are (the CR is the last
+    # character of its line); a reader that counts a CR as a line end of its own is seen
+    if rng.random() < CRLF_RATE:
+        unit.text = r.text.replace("\n", "\r\n")
+        unit.crlf = True
+    return unit.text
+
+CRLF_RATE = 0.15
 
 def tok_text(unit, a, b):
     return "".join(t.text for t in unit.toks[a:b + 1])
